@@ -111,6 +111,10 @@ pub struct NetPolicy {
     /// cyclic: how many times a write first returns `Pending` (back-pressure, timed wake)
     pub write_pending: Vec<u8>,
     pub write_pending_ms: u32,
+    /// the end of the stream (FIN) becomes visible this long after it was decided — and never
+    /// before the last byte before it is due; on a real network it can trail the data
+    #[serde(default)]
+    pub eof_delay_ms: u32,
 }
 
 impl Default for NetPolicy {
@@ -124,6 +128,7 @@ impl Default for NetPolicy {
             write_chunk: vec![usize::MAX],
             write_pending: vec![0],
             write_pending_ms: 1,
+            eof_delay_ms: 0,
         }
     }
 }
